@@ -23,7 +23,8 @@ const (
 	clsHookMissing     = "C19/stage-complete-hook-missing"
 	clsHangSyncPanic   = "C19/no-completion/sync-child-panic-under-async-parent"
 	clsHangPlanPanic   = "C19/no-completion/plan-panic-under-async-parent"
-	clsHangLostTask    = "C19/no-completion/task-never-ran"
+	clsHangLostTask    = "C19/no-completion/task-rejected-by-pool"
+	clsHangAbandoned   = "C19/no-completion/pool-consumed-task-without-calling-handlers"
 	clsHangAllDone     = "C19/no-completion/all-stages-completed"
 	clsHangOther       = "C19/no-completion/other"
 	clsMainPanic       = "C19/pipeline-execute-panicked"
@@ -31,7 +32,7 @@ const (
 	clsStatsState      = "C19/stats-state-disagrees-with-outcome"
 	clsErrHandleNil    = "C19/err-handler-called-with-nil"
 	clsNotStarted      = "C19/planned-stage-never-started"
-	clsTaskLostLater   = "C19/task-never-ran"
+	clsTaskLostLater   = "C19/stage-task-rejected-or-abandoned-by-pool"
 )
 
 type viol struct {
@@ -60,6 +61,7 @@ type stageFacts struct {
 	hExits      int
 	hUnwinds    int
 	lost        bool
+	abandoned   bool
 	planned     int // number of stages NextStages() returned
 }
 
@@ -164,6 +166,8 @@ func judge(out *caseOutcome) (vs []viol, facts map[string]int) {
 			f.hUnwinds++
 		case evLost:
 			f.lost = true
+		case evAbandoned:
+			f.abandoned = true
 		}
 	}
 	ids := make([]int, 0, len(st))
@@ -246,7 +250,7 @@ func judge(out *caseOutcome) (vs []viol, facts map[string]int) {
 		}
 		// zero times, decided logically: all runners returned, all operators ended, pools drained a sentinel.
 		var unfinished []int
-		syncOrigin, planOrigin, lostTask, unexplained := []int{}, []int{}, []int{}, []int{}
+		syncOrigin, planOrigin, lostTask, unexplained, abandoned := []int{}, []int{}, []int{}, []int{}, []int{}
 		for _, id := range ids {
 			f := st[id]
 			if f.registered < 0 || len(f.hooks) > 0 {
@@ -264,6 +268,8 @@ func judge(out *caseOutcome) (vs []viol, facts map[string]int) {
 				// else: an inline stage between the origin and the pooled ancestor, explained by the origin
 			case f.async && f.lost:
 				lostTask = append(lostTask, id)
+			case f.abandoned:
+				abandoned = append(abandoned, id)
 			default:
 				unexplained = append(unexplained, id)
 			}
@@ -274,6 +280,8 @@ func judge(out *caseOutcome) (vs []viol, facts map[string]int) {
 			add(clsHangAllDone, "callback never invoked although every registered stage was completed; %s", detail)
 		case len(unexplained) > 0:
 			add(clsHangOther, "callback never invoked; stages %v never completed for no recognised reason; %s", unexplained, detail)
+		case len(abandoned) > 0:
+			add(clsHangAbandoned, "callback never invoked; the pools consumed the tasks of stages %v (their counters are idle) but neither the completion nor the error handler of these stages was ever called; %s", abandoned, detail)
 		case len(lostTask) > 0:
 			add(clsHangLostTask, "callback never invoked; async stages %v were handed to their pool and never ran; %s", lostTask, detail)
 		case len(syncOrigin) > 0:
@@ -440,8 +448,8 @@ func judge(out *caseOutcome) (vs []viol, facts map[string]int) {
 			}
 		}
 	}
-	if len(out.Lost) > 0 {
-		add(clsTaskLostLater, "async stages %v were handed to their pool and never ran (the pool drained a later sentinel task)", out.Lost)
+	if len(out.Lost)+len(out.Abandoned) > 0 {
+		add(clsTaskLostLater, "pooled stages rejected by their pool: %v, consumed by their pool without any handler call: %v", out.Lost, out.Abandoned)
 	}
 	_ = mainPanic
 	return vs, facts
